@@ -4,6 +4,7 @@ import (
 	"bytes"
 	"encoding/binary"
 	"fmt"
+	"math"
 	"slices"
 	"unsafe"
 )
@@ -122,12 +123,12 @@ func reposMapDecode(b []byte) (ReposMap, error) {
 		return nil, fmt.Errorf("unsupported stringSet encoding version %d", v)
 	}
 
-	// Length
-	l := r.uvarint()
+	// Length. An entry takes at least 3 bytes.
+	l := r.count(3)
 	m := make(map[uint32]MinimalRepoListEntry, l)
 
-	// Pre-allocate slice for all branches
-	allBranchesLen := r.uvarint()
+	// Pre-allocate slice for all branches. A branch takes at least 2 bytes.
+	allBranchesLen := min(r.uvarint(), len(r.b)/2)
 	allBranches := make([]RepositoryBranch, 0, allBranchesLen)
 
 	for range l {
@@ -135,9 +136,9 @@ func reposMapDecode(b []byte) (ReposMap, error) {
 		hasSymbols := r.byt() == 1
 		var indexTimeUnix int64
 		if readIndexTime {
-			indexTimeUnix = int64(r.uvarint())
+			indexTimeUnix = int64(r.uvarint64())
 		}
-		lb := r.uvarint()
+		lb := r.count(2)
 		for range lb {
 			allBranches = append(allBranches, RepositoryBranch{
 				Name:    r.str(),
@@ -161,15 +162,43 @@ type binaryReader struct {
 	err error
 }
 
-func (b *binaryReader) uvarint() int {
+func (b *binaryReader) uvarint64() uint64 {
 	x, n := binary.Uvarint(b.b)
-	if n < 0 {
+	// n == 0 means the input ends inside the varint, n < 0 that it overflows
+	// 64 bits.
+	if n <= 0 {
 		b.b = nil
 		b.err = fmt.Errorf("malformed %s", b.typ)
 		return 0
 	}
 	b.b = b.b[n:]
+	return x
+}
+
+// uvarint reads a length or an id. A value that does not fit an int is
+// malformed.
+func (b *binaryReader) uvarint() int {
+	x := b.uvarint64()
+	if x > math.MaxInt {
+		b.b = nil
+		b.err = fmt.Errorf("malformed %s", b.typ)
+		return 0
+	}
 	return int(x)
+}
+
+// count reads the number of elements that follow. Every element takes at
+// least minSize bytes, so a count larger than what the remaining input can
+// hold is malformed. This bounds what we allocate and loop over by the size
+// of the input.
+func (b *binaryReader) count(minSize int) int {
+	n := b.uvarint()
+	if n > len(b.b)/minSize {
+		b.b = nil
+		b.err = fmt.Errorf("malformed %s", b.typ)
+		return 0
+	}
+	return n
 }
 
 func (b *binaryReader) str() string {
